@@ -12,6 +12,8 @@ BLOCKS = (
     "a = b\nb = c\nc = 0.5*c + G\nd = a + b\nb(0) = SYM_IC\nexogenous\nG = SYM_G",   # alias chain, condition in the middle
     "x = y\ny = 2.5\nz = x*y\nz(0) = SYM_IC\nexogenous\nG = SYM_G",                   # constant behind an alias
     "x = xx\nxx = 0.5*x_1 + G\nx_1 = x\nd = x + xx\nxx(0) = SYM_IC\nexogenous\nG = SYM_G",   # prefix-sharing names
+    "n = 4\nx = n\nz = x*2\nm = 3 + 1\nw = 0.5*w + G\nw(0) = SYM_IC\nexogenous\nG = SYM_G",          # integer-valued constants behind aliases
+    "a = H\nb = a\nc = 2*H\nw = 0.5*w + G + b\nw(0) = SYM_IC\nexogenous\nG = SYM_G\nH = [20, 25]",   # exogenous list written with integers
 )
 
 
@@ -96,6 +98,22 @@ def check_k0_block7(ic: float, g: float) -> bool:
     post: _
     """
     return _same(BLOCKS[7], ic, g)
+
+
+def check_k0_block8(ic: float, g: float) -> bool:
+    """
+    pre: -100 <= ic <= 100 and -100 <= g <= 100
+    post: _
+    """
+    return _same(BLOCKS[8], ic, g)
+
+
+def check_k0_block9(ic: float, g: float) -> bool:
+    """
+    pre: -100 <= ic <= 100 and -100 <= g <= 100
+    post: _
+    """
+    return _same(BLOCKS[9], ic, g)
 
 
 def reach_k0(ic: float, g: float) -> bool:
